@@ -67,7 +67,7 @@ def substSim (ps : List Binding) (line : Str) : Str :=
 /-- `for src, dest in repl_list: lookup.setdefault(src, dest)` — keys in insertion order -/
 def dedupe : List Binding → List Binding
   | [] => []
-  | b :: bs => b :: (dedupe bs).filter (fun a => a.1 ≠ b.1)
+  | b :: bs => b :: (dedupe bs).filter (fun a => !decide (a.1 = b.1))
 
 def insertByLen (b : Binding) : List Binding → List Binding
   | [] => [b]
@@ -185,14 +185,30 @@ def FSpec.toCodeValue (spec : FSpec) (inst : Option (Str × Str)) : CodeValue :=
   { varPrefix := spec.name, includes := spec.includes, args := spec.args, code := spec.code,
     result := spec.result, retType := spec.retType, isCollection := spec.isCollection, instance_ := inst }
 
-/-- `build_CPPCodeValue(spec, call_node)`; `f` is `call_node.func`. -/
+/-- What `build_CPPCodeValue` and `cpp_ast_finder.visit_Call` look at in `call_node.func`. -/
+inductive Shape where
+  | name (n : Str)                 -- `f(...)`
+  | attrName (r a : Str)           -- `r.a(...)`, `r` a plain `Name`
+  | attrOther (a : Str)            -- `<expr>.a(...)`
+  | other
+deriving Repr, DecidableEq
+
+def shape : Expr → Shape
+  | .name n => .name n
+  | .attr (.name r) a => .attrName r a
+  | .attr _ a => .attrOther a
+  | _ => .other
+
+/-- `build_CPPCodeValue(spec, call_node)`; `f` is `call_node.func`. Order of the checks as in
+the code: number of arguments, function invoked like a method, method invoked like a function. -/
 def buildCPPCodeValue (spec : FSpec) (f : Expr) (args : List Expr) : Except Err Expr :=
   if args.length ≠ spec.args.length then .error .arity
-  else match f, spec.methodObject with
-    | .attr _ _, none => .error .functionAsMethod
+  else match shape f, spec.methodObject with
+    | .attrName _ _, none => .error .functionAsMethod
+    | .attrOther _, none => .error .functionAsMethod
     | .name _, some _ => .error .methodAsFunction
     | .name _, none => .ok (.cpp (spec.toCodeValue none) args)
-    | .attr (.name r) _, some mo => .ok (.cpp (spec.toCodeValue (some (mo, r))) args)
+    | .attrName r _, some mo => .ok (.cpp (spec.toCodeValue (some (mo, r))) args)
     | _, _ => .error .badCallee
 
 /-- `isNonnullAst` of the two CMS back ends: only the number of arguments is looked at. -/
@@ -224,8 +240,9 @@ def applyHandler (h : Handler) (f : Expr) (args : List Expr) : Except Err Expr :
 
 /-- The name under which `visit_Call` looks the call up: `obj.name(...)` only when `obj` is a
 plain `Name`, or `name(...)`. -/
-def calleeKey : Expr → Option Str
-  | .attr (.name _) a => some a
+def calleeKey (f : Expr) : Option Str :=
+  match shape f with
+  | .attrName _ a => some a
   | .name n => some n
   | _ => none
 
@@ -295,7 +312,8 @@ def addIncludes : List Str → List Str → List Str
   | acc, [] => acc
   | acc, i :: is => addIncludes (if i ∈ acc then acc else acc ++ [i]) is
 
-def natStr (n : Nat) : Str := (toString n).toList
+/-- `str(n)` (= `(toString n).toList`, `Nat.toList_repr`) -/
+def natStr (n : Nat) : Str := Nat.toDigits 10 n
 
 /-- `unique_name(prefix)` -/
 def uniqueName (pre : Str) (idx : Nat) : Str := pre ++ natStr idx
@@ -319,6 +337,16 @@ def Env.get? : Env → Str → Option Str
   | [], _ => none
   | (k, v) :: t, n => if k = n then some v else Env.get? t n
 
+/-- the receiver text `process_ast_node` binds (`visitor.resolve_id(name).rep.as_cpp()`):
+`none` = a receiver name without representation -/
+def recvOf (env : Env) (cv : CodeValue) : Option (Option Str) :=
+  match cv.instance_ with
+  | none => some none
+  | some (_, r) =>
+    match env.get? r with
+    | some t => some (some t)
+    | none => none
+
 mutual
 /-- The C++ text standing for `e` and the state of the enclosing block afterwards.
 For a `cpp` node this is `process_ast_node`: declare the result variable in the *enclosing*
@@ -336,24 +364,18 @@ def emit (W : Char → Bool) (env : Env) : Expr → St → Except Err (Str × St
   | .call _ _, _ => .error .unsupported
   | .binop _ _ _, _ => .error .unsupported
   | .cpp cv args, s =>
-    let v := uniqueName cv.varPrefix s.next
-    let s1 : St := { s with next := s.next + 1, decls := s.decls ++ [.decl (declType cv) v],
-                            includes := addIncludes s.includes cv.includes }
-    let recv : Except Err (Option Str) :=
-      match cv.instance_ with
-      | none => .ok none
-      | some (_, r) =>
-        match env.get? r with
-        | some t => .ok (some t)
-        | none => .error (.unbound r)
-    match recv with
-    | .error e => .error e
-    | .ok recv =>
-      match emitList W env args s1 with
+    match recvOf env cv with
+    | none => .error (.unbound [])
+    | some recv =>
+      match emitList W env args
+          { s with next := s.next + 1,
+                   decls := s.decls ++ [.decl (declType cv) (uniqueName cv.varPrefix s.next)],
+                   includes := addIncludes s.includes cv.includes } with
       | .error e => .error e
       | .ok (texts, s2) =>
-        .ok (v, { s2 with stmts := s2.stmts ++
-                    [.block (blockLines W cv (replList cv recv texts)) v cv.result] })
+        .ok (uniqueName cv.varPrefix s.next,
+             { s2 with stmts := s2.stmts ++
+                 [.block (blockLines W cv (replList cv recv texts)) (uniqueName cv.varPrefix s.next) cv.result] })
 def emitList (W : Char → Bool) (env : Env) : List Expr → St → Except Err (List Str × St)
   | [], s => .ok ([], s)
   | e :: es, s =>
